@@ -615,6 +615,11 @@ func (f *File) ReadAt(p []byte, off int64) (n int, err error) {
 
 	n, err = f.Read(p)
 
+	// Unlike `Read`, `ReadAt` has to explain why it returned fewer bytes than requested
+	if err == nil && n < len(p) {
+		err = io.EOF
+	}
+
 	if _, serr := f.Seek(pos, io.SeekStart); serr != nil && err == nil {
 		err = serr
 	}
